@@ -393,6 +393,14 @@ def _base_names(I, cls, depth=0):
 # ---------------------------------------------------------------------------------------------
 def call_method(I, b: Bound, args, kwargs, e, fr):
     recv, name = b.recv, b.name
+    if name == "_make" and isinstance(recv, ClassV) and len(args) == 1:
+        # NamedTuple._make(iterable): the fields in order
+        ao = I.obj(args[0])
+        if ao is not None and ao.items is not None:
+            return instantiate(I, recv.cls, list(ao.items), {}, e, fr)
+        if ao is not None and "mapsplit" in ao.meta:
+            return instantiate(I, recv.cls, [Sym("star", ao.meta["mapsplit"])], {}, e, fr)
+        return instantiate(I, recv.cls, [I.derive("star", args[0])], {}, e, fr)
     if name == "__new__" and isinstance(recv, ClassV):
         cls = args[0].cls if args and isinstance(args[0], ClassV) else recv.cls
         o = I.alloc("record", site=where(fr, e), cls=cls)     # an instance without running __init__
